@@ -17,7 +17,7 @@ from ..ast.visitor import DefaultVisitor
 from ..fpc_context import FPCoreContext
 from ..interpret import Interpreter, Value, get_default_interpreter
 from ..interpret.value import to_value, unwrap_foreign
-from ..number import REAL
+from ..number import REAL, Float
 from .define_use import DefineUse, DefineUseAnalysis, Definition, DefSite
 
 
@@ -42,6 +42,27 @@ class PartialEvalInfo:
     by_def: dict[Definition, Value]
     by_expr: dict[Expr, Value]
     def_use: DefineUseAnalysis
+
+
+def _is_neg_zero(x) -> bool:
+    return isinstance(x, Float) and x.is_zero() and x.s
+
+
+def _same_constant(a, b) -> bool:
+    """Are *a* and *b* the same constant?  ``==``, except that ``+0`` and ``-0``
+    are different: the sign of a zero is observable (``1 / x``, ``signbit``,
+    ``copysign``), so a phi over the two is not a constant."""
+    if isinstance(a, (list, tuple)) and isinstance(b, (list, tuple)):
+        return (
+            type(a) is type(b)
+            and len(a) == len(b)
+            and all(_same_constant(x, y) for x, y in zip(a, b))
+        )
+    if isinstance(a, bool) or isinstance(b, bool):
+        return isinstance(a, bool) and isinstance(b, bool) and a == b
+    if a != b:
+        return False
+    return _is_neg_zero(a) == _is_neg_zero(b)
 
 
 class _PartialEvalInstance(DefaultVisitor):
@@ -109,7 +130,7 @@ class _PartialEvalInstance(DefaultVisitor):
             return a
         if a is _TOP or b is _TOP:
             return _TOP
-        return a if a == b else _TOP
+        return a if _same_constant(a, b) else _TOP
 
     def _merge_branch_phis(self, stmt: Stmt):
         """Merge phis after an ``if`` / ``if-else``: both branches are
